@@ -109,3 +109,20 @@ func hasLit(lits []lit, v ssa.Value, neg bool) bool {
 	}
 	return false
 }
+
+// edgeLits: the literals that hold when control flows along the edge from -> to: everything that dominates
+// `from`, plus the outcome of from's own If when `to` is exactly one of its two successors.
+func edgeLits(from, to *ssa.BasicBlock) []lit {
+	out := dominatingLits(from)
+	if len(from.Instrs) == 0 {
+		return out
+	}
+	if ifi, ok := from.Instrs[len(from.Instrs)-1].(*ssa.If); ok && len(from.Succs) == 2 && from.Succs[0] != from.Succs[1] {
+		if from.Succs[0] == to {
+			out = append(out, condLits(ifi.Cond, true)...)
+		} else if from.Succs[1] == to {
+			out = append(out, condLits(ifi.Cond, false)...)
+		}
+	}
+	return out
+}
